@@ -28,11 +28,11 @@ CHECKS = {
              tech="Lean 4 proof (inductive invariant over command lists) + differential correspondence + oracle", ref="§6 C18"),
  "C03": dict(text="C03_batchRead / C03_run / C03_cap / C03_budget: for EVERY state, disk content, budget, flag and start offset (no invariant "
              "needed) a batch read returns at most cap entries (2000 from the generated constants) and payload <= budget unless it returns "
-             "exactly one entry; lifted to every bread output of every program. The progress clause is proved separately under the engine "
-             "invariant (see C01) and is meanwhile decided by the oracle on the implementation. Executable model (Eng.batchRead) compared "
+             "exactly one entry; lifted to every bread output of every program. C03_progress: in every reachable state of the entry-level "
+             "model an unconsumed entry implies a non-empty result (planner: first range covers the first entry; parser: first entry always accepted). Executable model (Eng.batchRead) compared "
              "with the real engine on ~900 programs per quick run, both geometries.",
              note=BASE_NOTE + "Sequential model (one thread); every I/O succeeds; rkyv header encoding and pread/io_uring/mmap modelled as cells. "
-             "Progress clause: theorem pending, oracle + correspondence meanwhile.",
+             "C03_progress (entry-level model AEng, every reachable state): an unconsumed entry implies a non-empty result, for every budget incl. 0.",
              tech="Lean 4 proof (parser invariant by induction, any plan) + translator + differential correspondence + oracle", ref="§6 C03"),
  "C24": dict(text="C24_sync (any concatenation of frames, any announced lengths and bodies, any UTF-8 decoder: exactly one response per frame, "
              "in order, each computed from that frame's own bytes), C24_bad_length/C24_bad_utf8/C24_unknown_command (malformed frames are "
@@ -62,6 +62,21 @@ CHECKS = {
              "<= MAX_ALLOC (open finding sealThenAllocFail beyond). AEng abstracts files/allocator/trackers/index (they are in Eng); the AEng<->Eng<->implementation "
              "tie is the correspondence run, not a theorem. Payload bytes are opaque values (byte-identity = same value returned).",
              tech="Lean 4 proof (refinement of a FIFO spec by induction over operation sequences) + translator + differential correspondence + oracle", ref="§6 C01"),
+ "C02": dict(text="C02_batch_peek_equals_consume / C02_next_peek_equals_consume (a peek returns what the consuming read returns), "
+             "C02_batch_peek_later_outputs / C02_offset_read_later_outputs (inserting a batch peek or an offset-addressed read, checkpoint true or false, "
+             "anywhere in any history changes no later output), C02_next_peek_neutral (log, consumed index, count unchanged), "
+             "C02_batch_peek_reclaim_neutral (storage-level: files and reclamation trackers untouched). Partial: the third sentence (offset reads "
+             "return suffixes of appended entries in order) is decided by the oracle on the implementation only; read_next peeks that step over an "
+             "exhausted block mark it consumed in the reclamation bookkeeping (not observed on the implementation yet).",
+             note=BASE_NOTE + "Same scope as C01 (one process lifetime, sequential). Reclamation neutrality is a model-level theorem; no tracker hook observes it on the real code yet.",
+             tech="Lean 4 proof (state-equivalence congruence of step; unfolding) + differential correspondence + oracle", ref="§6 C02"),
+ "C15": dict(text="C15_inprocess: after ANY operation sequence (any topics, rejected operations, both read APIs, peeks, offset reads) `count` reports "
+             "(entries of successful appends) - (entries returned by consuming reads), both computed from the history itself; C15_peeks_not_counted. "
+             "Restart clause: partial - decided by correspondence (Eng recovery scan + count rebuild vs the real engine) and the oracle on restart "
+             "histories; violations in the regions of the open findings emptyBlockAllocated / scanStopsAtEmptyBlock / clockRegressionReordersFiles / "
+             "sealThenAllocFail are reported as KNOWN-FINDING.",
+             note=BASE_NOTE + "In-process theorem on the entry-level model AEng (tied by correspondence). The restart clause has no theorem yet.",
+             tech="Lean 4 proof (corollary of the FIFO refinement, induction over histories) + differential correspondence + oracle", ref="§6 C15"),
 }
 NOT_APPLICABLE = {
  "C19": "statement about the vendored openraft core + QUIC transport + tokio runtime, none of which can be built or run offline here (tokio, quinn, rustls, futures absent from the registry); a free-standing Raft proof would be tied to nothing (DESIGN.md §6 C19)",
